@@ -541,7 +541,7 @@ Section Oracles.
   }.
 
   Section Total.
-    Hypothesis X : oracles_exc_only.
+    Variable X : oracles_exc_only.
 
     Lemma find_cwd_exc inp : exc_only (find_cwd inp).
     Proof.
@@ -640,7 +640,7 @@ Section Oracles.
   Qed.
 
   Definition is_decision (o : outcome) : bool := match o with ODecision _ _ => true | _ => false end.
-  Definition is_feedback (o : outcome) : bool := match o with OText _ | OSilent => true | _ => false end.
+  Definition feedback_shape (o : outcome) : Prop := o = OSilent \/ exists c t, o = OText (duck ++ c :: t).
 
   Lemma core_shell_pre inp he c cfg cwd o :
     is_post he = false -> core_shell inp he c cfg cwd = Ok o -> is_decision o = true.
@@ -664,19 +664,19 @@ Section Oracles.
   Qed.
 
   Lemma core_shell_post inp he c cfg cwd o :
-    is_post he = true -> core_shell inp he c cfg cwd = Ok o -> is_feedback o = true.
+    is_post he = true -> core_shell inp he c cfg cwd = Ok o -> feedback_shape o.
   Proof.
     unfold Hook.core_shell, is_post. intros P. rewrite P, perm_bypass_spec. cbn [bind].
     destruct (tokenize o_words c) as [ws|e]; cbn [bind]; [|discriminate].
     destruct (match_after o_after_prep o_after_rule ws cfg cwd) as [msg|e]; cbn [bind]; [|discriminate].
-    intro H. apply text_outcome_shape in H as [-> | (c0 & t & _ & ->)]; reflexivity.
+    intro H. apply text_outcome_shape in H as [-> | (c0 & t & _ & ->)]; [left; reflexivity | right; eauto].
   Qed.
 
   Lemma core_mcp_post inp he tn cfg o :
-    is_post he = true -> core_mcp inp he tn cfg = Ok o -> is_feedback o = true.
+    is_post he = true -> core_mcp inp he tn cfg = Ok o -> feedback_shape o.
   Proof.
     unfold Hook.core_mcp, is_post. intros P. rewrite P, perm_bypass_spec. cbn [bind].
-    intro H. apply text_outcome_shape in H as [-> | (c0 & t & _ & ->)]; reflexivity.
+    intro H. apply text_outcome_shape in H as [-> | (c0 & t & _ & ->)]; [left; reflexivity | right; eauto].
   Qed.
 
   (* a ConfigError while loading is answered before the event is looked at *)
@@ -884,7 +884,8 @@ Section Oracles.
     intro H. apply core_cases in H as [(msg & _ & E) | (cwd & cfg & he & rt & Hc & Hl & He & Hr & H)];
       [discriminate|].
     destruct (is_post he) eqn:P.
-    { destruct rt; [apply core_shell_post in H | apply core_mcp_post in H | ]; auto; discriminate. }
+    { destruct rt; [apply core_shell_post in H | apply core_mcp_post in H | discriminate]; auto;
+        destruct H as [H | (c0 & t0 & H)]; discriminate. }
     exists cwd, cfg, he, rt. do 5 (split; [assumption|]).
     destruct rt as [c|tn|]; [| |discriminate].
     - unfold Hook.core_shell in H. unfold is_post in P. rewrite P, perm_bypass_spec in H.
@@ -987,7 +988,7 @@ Section Oracles.
     post_event inp -> core cursor inp = Ok o ->
     (exists msg, config_error_at inp msg /\ o = ODecision Ask ($"config error: " ++ msg)) \/
     (route_of cursor inp = Ok ROther /\ o = OEmpty) \/
-    is_feedback o = true.
+    feedback_shape o.
   Proof.
     intros (he' & Ee' & P) H.
     apply core_cases in H as [(msg & Hm & ->) | (cwd & cfg & he & rt & _ & _ & Ee & Hr & H)]; [left; eauto|].
@@ -996,10 +997,6 @@ Section Oracles.
     - right. eapply core_mcp_post; eauto.
     - left. auto.
   Qed.
-
-  Lemma feedback_render m o : is_feedback o = true ->
-    render m o = [] \/ exists t, render m o = [Text t] /\ o = OText t.
-  Proof. destruct o; try discriminate; intros _; [right; eexists; split; reflexivity | left; reflexivity]. Qed.
 
   (* the printed line is the duck, then a non-empty message *)
   Lemma text_outcome_duck msg t : text_outcome msg = Ok (OText t) -> exists c r, msg = Some (c :: r) /\ t = duck ++ c :: r.
@@ -1078,6 +1075,98 @@ Section Oracles.
   Proof.
     intro Pr. unfold lift, Hook.text_outcome, feedback_of. destruct msg as [[|c t]|]; try reflexivity.
     destruct (Pr (duck ++ c :: t)) as (u & ->). reflexivity.
+  Qed.
+
+  (* ---- C19 on the process *)
+  Lemma main_is_handlers setup e stdin :
+    (setup = Ok tt \/ setup = Raise OSError) ->
+    main setup e stdin = handlers (inp <- stdin ;; main_try (detect_mode_from_flags e) inp).
+  Proof. intros [-> | ->]; reflexivity. Qed.
+
+  Definition post_stdout (l : list item) : Prop :=
+    l = [] \/ (exists c t, l = [Text (duck ++ c :: t)]) \/ l = [J (JObj [])].
+
+  Lemma main_post_output setup e inp :
+    oracles_exc_only -> (setup = Ok tt \/ setup = Raise OSError) -> post_event inp ->
+    (forall msg, ~ config_error_at inp msg) ->
+    post_stdout (stdout (main setup e (Ok inp))) /\ exit_code (main setup e (Ok inp)) = 0%nat.
+  Proof.
+    intros X Hs P NC. split; [|apply (main_total X setup e (Ok inp) Hs I)].
+    rewrite (main_is_handlers setup e (Ok inp) Hs). cbn [bind].
+    pose proof (main_try_exc X (detect_mode_from_flags e) inp) as T.
+    rewrite main_try_factor in *.
+    destruct (match detect_mode_from_flags e with Some m => Ok m | None => detect_mode_from_input inp end) as [m|x];
+      cbn [bind] in *.
+    2: { cbn [handlers]. cbn in T. rewrite T. right; right; reflexivity. }
+    unfold lift in *. destruct (core (is_cursor m) inp) as [o|x] eqn:Ec; cbn [bind handlers] in *.
+    2: { cbn in T. rewrite T. right; right; reflexivity. }
+    cbn [done stdout].
+    apply core_post_outcome in Ec as [(msg & Hm & _) | [(_ & ->) | [-> | (c & t & ->)]]];
+      [exfalso; eapply NC; eauto | right; right; reflexivity | left; reflexivity | right; left; cbn [render]; eauto | exact P].
+  Qed.
+
+  (* what exactly is printed: the message of the last matching rule *)
+  Lemma post_mcp_feedback m inp tn cwd cfg he :
+    find_cwd inp = Ok cwd -> load_stage cwd = Ok cfg -> event_of inp = Ok he -> is_post he = true ->
+    route_of false inp = Ok (RMcp tn) -> is_cursor m = false -> (forall s, exists u, o_print s = Ok u) ->
+    main_try (Some m) inp
+    = Ok (feedback_of (option_map msg_or_empty (last_such (mcp_hit tn) (c_after_mcp cfg)))).
+  Proof.
+    intros Hc Hl He P Hr Hm Pr. rewrite main_try_factor. cbn [bind]. rewrite Hm.
+    unfold Hook.core. rewrite Hc; cbn [bind]. rewrite Hl, core_after_config_route, He; cbn [bind]. rewrite Hr; cbn [bind].
+    unfold Hook.core_mcp. unfold is_post in P. rewrite P, perm_bypass_spec. cbn [bind].
+    rewrite match_after_mcp_last. apply text_outcome_feedback. exact Pr.
+  Qed.
+
+  Lemma post_shell_feedback m inp c ws cwd cfg he (p : rule -> bool) :
+    find_cwd inp = Ok cwd -> load_stage cwd = Ok cfg -> event_of inp = Ok he -> is_post he = true ->
+    route_of (is_cursor m) inp = Ok (RShell c) -> (forall s, exists u, o_print s = Ok u) ->
+    tokenize o_words c = Ok ws -> (exists u, o_after_prep (c_shell cfg) cwd ws = Ok u) ->
+    Forall (fun r => o_after_rule (c_shell cfg) cwd ws r = Ok (p r)) (c_after cfg) ->
+    main_try (Some m) inp = Ok (feedback_of (option_map msg_or_empty (last_such p (c_after cfg)))).
+  Proof.
+    intros Hc Hl He P Hr Pr Ht (u & Hp) F. rewrite main_try_factor. cbn [bind].
+    unfold Hook.core. rewrite Hc; cbn [bind]. rewrite Hl, core_after_config_route, He; cbn [bind]. rewrite Hr; cbn [bind].
+    unfold Hook.core_shell. unfold is_post in P. rewrite P, perm_bypass_spec. cbn [bind]. rewrite Ht; cbn [bind].
+    unfold match_after. rewrite Hp; cbn [bind]. rewrite (after_loop_spec _ _ _ p _ None F). cbn [bind].
+    replace (match last_such p (c_after cfg) with Some r => Some (msg_or_empty r) | None => None end)
+      with (option_map msg_or_empty (last_such p (c_after cfg))) by (destruct (last_such p (c_after cfg)); reflexivity).
+    apply text_outcome_feedback. exact Pr.
+  Qed.
+
+  (* feedback_of prints nothing for no match and for an empty message *)
+  Lemma feedback_of_none : feedback_of None = [].       Proof. reflexivity. Qed.
+  Lemma feedback_of_empty : feedback_of (Some []) = [].  Proof. reflexivity. Qed.
+
+  (* C14_routing: an MCP call that no *-mcp rule matches is answered {} (config loaded, pre-execution, no bypass) *)
+  Lemma mcp_no_match_empty m inp tn cwd cfg he :
+    find_cwd inp = Ok cwd -> load_stage cwd = Ok cfg -> event_of inp = Ok he -> is_post he = false ->
+    route_of false inp = Ok (RMcp tn) -> is_cursor m = false -> bypass_of inp = Ok None ->
+    (forall r, In r (c_mcp cfg) -> o_gmatch tn (r_pattern r) = false) ->
+    main_try (Some m) inp = Ok [J (JObj [])].
+  Proof.
+    intros Hc Hl He P Hr Hm B N. rewrite main_try_factor. cbn [bind]. rewrite Hm.
+    unfold Hook.core. rewrite Hc; cbn [bind]. rewrite Hl, core_after_config_route, He; cbn [bind]. rewrite Hr; cbn [bind].
+    unfold Hook.core_mcp. unfold is_post in P. rewrite P, perm_bypass_spec, B. cbn [bind].
+    rewrite match_mcp_last. unfold last_such.
+    assert (F : find (mcp_hit tn) (rev (c_mcp cfg)) = None).
+    { destruct (find (mcp_hit tn) (rev (c_mcp cfg))) as [r|] eqn:E; [|reflexivity].
+      apply find_some in E as [Hin Hhit]. apply in_rev in Hin. unfold mcp_hit in Hhit. rewrite (N r Hin) in Hhit. discriminate. }
+    rewrite F. reflexivity.
+  Qed.
+
+  (* and one that some rule matches is decided by the last such rule *)
+  Lemma mcp_match_last m inp tn cwd cfg he rule :
+    find_cwd inp = Ok cwd -> load_stage cwd = Ok cfg -> event_of inp = Ok he -> is_post he = false ->
+    route_of false inp = Ok (RMcp tn) -> is_cursor m = false -> bypass_of inp = Ok None ->
+    last_such (mcp_hit tn) (c_mcp cfg) = Some rule ->
+    (exists u, o_log_decision (r_decision rule) (mcp_reason rule) = Ok u) ->
+    main_try (Some m) inp = Ok [J (envelope m (verdict_of_action (r_decision rule)) (mcp_reason rule))].
+  Proof.
+    intros Hc Hl He P Hr Hm B L (u & Lg). rewrite main_try_factor. cbn [bind]. rewrite Hm.
+    unfold Hook.core. rewrite Hc; cbn [bind]. rewrite Hl, core_after_config_route, He; cbn [bind]. rewrite Hr; cbn [bind].
+    unfold Hook.core_mcp. unfold is_post in P. rewrite P, perm_bypass_spec, B. cbn [bind].
+    rewrite match_mcp_last, L, Lg. reflexivity.
   Qed.
 End Oracles.
 
@@ -1218,5 +1307,31 @@ Section Three.
   Proof.
     intros H Hr. apply core_rel with (R := fun a b : config => c_log a = c_log b); [exact H | auto |].
     intros a b cwd _. rewrite !core_after_config_route, Hr. reflexivity.
+  Qed.
+
+  Notation mt := (@main_try S G o_resolve o_getcwd).
+
+  Lemma main_inert explicit inp :
+    rel_load lc lc' same_but_after -> pre_event inp ->
+    mt lc o_configure_logging o_log_decision an gm wd pr ar o_print explicit inp =
+    mt lc' o_configure_logging o_log_decision an gm wd pr ar o_print explicit inp.
+  Proof. intros H P. apply main_rel. intro cursor. apply core_inert; assumption. Qed.
+
+  Lemma main_mcp_route_only m inp tn :
+    is_cursor m = false -> rel_load lc lc' same_mcp_part -> route_of false inp = Ok (RMcp tn) ->
+    mt lc o_configure_logging o_log_decision an gm wd pr ar o_print (Some m) inp =
+    mt lc' o_configure_logging o_log_decision an' gm wd' pr' ar' o_print (Some m) inp.
+  Proof.
+    intros Hm H Hr. rewrite !main_try_factor. cbn [bind]. rewrite Hm. unfold lift.
+    rewrite (core_mcp_route_only inp tn H Hr). reflexivity.
+  Qed.
+
+  Lemma main_shell_route_only m inp c :
+    rel_load lc lc' same_shell_part -> route_of (is_cursor m) inp = Ok (RShell c) ->
+    mt lc o_configure_logging o_log_decision an gm wd pr ar o_print (Some m) inp =
+    mt lc' o_configure_logging o_log_decision an gm' wd pr ar o_print (Some m) inp.
+  Proof.
+    intros H Hr. rewrite !main_try_factor. cbn [bind]. unfold lift.
+    rewrite (core_shell_route_only (is_cursor m) inp c H Hr). reflexivity.
   Qed.
 End Three.
